@@ -393,7 +393,13 @@ public:
          DataArray da = createDataArray(name, type, data_type, shape, compression);
 
          const NDSize offset(shape.size(), 0);
-         da.setData(data, offset);
+         try {
+             da.setData(data, offset);
+         } catch (...) {
+             // the data cannot be stored in an array of data_type: the call is refused as a whole
+             deleteDataArray(da.id());
+             throw;
+         }
 
          return da;
     }
